@@ -30,7 +30,7 @@ type c10case struct {
 	Shape  hshape `json:"shape"`
 	Prefix []hop  `json:"prefix"` // crash-free history that produces the pre-state
 	Run    hop    `json:"run"`    // the run that is killed
-	Fault  string `json:"fault"`  // "point:<i>" | "kill:<T.i>" | "torn:<dump index>:<prefix length>"
+	Fault  string `json:"fault"`  // "point:<i>" | "kill:<T.i>" | "term:<T.i>" | "int:<T.i>" | "torn:<dump index>:<prefix length>"
 	Cont   []hop  `json:"cont"`   // continuation
 }
 
@@ -237,6 +237,9 @@ func c10Explore(c *core.Ctx, sb *sandbox, shape hshape, ps prestate, res *core.S
 			t := shape.task(name)
 			for j := 0; j < t.NCmd; j++ {
 				faults = append(faults, fmt.Sprintf("kill:%s.%d", name, j))
+				// the signals a user or a supervisor sends: the run ends just the same, and whatever a
+				// handler does on the way out must not put an older record back
+				faults = append(faults, fmt.Sprintf("term:%s.%d", name, j), fmt.Sprintf("int:%s.%d", name, j))
 			}
 		}
 		dump := 0
@@ -276,8 +279,9 @@ func c10ApplyFault(c *core.Ctx, sb *sandbox, k c10case, pre hstate, points []tra
 	switch kind {
 	case "point":
 		env = []string{"VERIF_FAULTS=crash@*#" + arg}
-	case "kill":
-		_ = os.WriteFile(filepath.Join(sb.Flags, "kill."+flagOf(arg)), nil, 0o644)
+	case "kill", "term", "int":
+		// the flag file holds the number of the signal the command sends to spok (the shell is in-process)
+		_ = os.WriteFile(filepath.Join(sb.Flags, "kill."+flagOf(arg)), []byte(map[string]string{"kill": "9", "term": "15", "int": "2"}[kind]), 0o644)
 		defer os.Remove(filepath.Join(sb.Flags, "kill."+flagOf(arg)))
 	case "torn":
 		idx, l, _ := strings.Cut(arg, ":")
@@ -297,6 +301,10 @@ func c10ApplyFault(c *core.Ctx, sb *sandbox, k c10case, pre hstate, points []tra
 	obs = sb.runBinary(bin, k.Shape, k.Run, env)
 	post = pre.clone()
 	sb.readBack(k.Shape, &post)
+	if !obs.Killed && (kind == "term" || kind == "int") && (obs.Exit == 143 || obs.Exit == 130) {
+		// the signal was caught and turned into the conventional exit status: the run ended there all the same
+		obs.Killed = true
+	}
 	if !obs.Killed {
 		return post, obs, false
 	}
@@ -473,7 +481,7 @@ func c10Run(c *core.Ctx) bool {
 		"evaluations":                     res.Evaluations + res.Counters["continuations"],
 		"faults_injected":                 res.Evaluations,
 		"distinct_nontrivial":             distinct,
-		"rule":                            "for reachable crash-free project states (breadth-first to depth 3/4 on 5/12 shapes, a seeded selection preferring states with recorded digests) and the runs {all tasks, all tasks --force(, last task)}: one recorded pass lists the hook points hit (run.*, cache.*, hash.*); the run is then repeated by the real binary with SIGKILL at every point index, with `kill -9 $$` in every command position, and with byte-prefixes of every cache content it writes installed as cache.json (quick: lengths 0, 1, every 8th, len-1; thorough: all); each damaged state is followed by continuations {run; run run; edit run; edit run revert run; edit revert run; third-content failing-run edit/revert run} per file, judged by the cache model (C01 clause). evaluations = faults injected + continuations executed; non-trivial = distinct (scenario, continuation) pairs executed after a fault that took effect",
+		"rule":                            "for reachable crash-free project states (breadth-first to depth 3/4 on 5/12 shapes, a seeded selection preferring states with recorded digests) and the runs {all tasks, all tasks --force(, last task)}: one recorded pass lists the hook points hit (run.*, cache.*, hash.*); the run is then repeated by the real binary with SIGKILL at every point index, with `kill -9 $$` (and -15, -2) in every command position, and with byte-prefixes of every cache content it writes installed as cache.json (quick: lengths 0, 1, every 8th, len-1; thorough: all); each damaged state is followed by continuations {run; run run; edit run; edit run revert run; edit revert run; third-content failing-run edit/revert run} per file, judged by the cache model (C01 clause). evaluations = faults injected + continuations executed; non-trivial = distinct (scenario, continuation) pairs executed after a fault that took effect",
 		"samples":                         res.Samples,
 		"counters":                        res.Counters,
 		"crash_points_reached":            res.SetValues("crash_points"),
